@@ -636,7 +636,7 @@ func memClass(site string, in []byte) string {
 		if maxExponentDigits(in) >= 6 {
 			return "number-exponent>=100000"
 		}
-		if depthOfMP(in) >= 256 {
+		if depthOfMP(in) >= 128 { // the structure walker itself stops at depth 200
 			return "deep-nesting"
 		}
 		return ""
